@@ -4,6 +4,8 @@ package main
 import (
 	"encoding/json"
 	"fmt"
+	"sort"
+	"strconv"
 
 	"verifharness/lib"
 )
@@ -16,7 +18,23 @@ const rule = "a case is a Go type assembled with reflect.SliceOf/MapOf/PtrTo/Str
 
 func newCasesFile() *lib.CasesFile {
 	return &lib.CasesFile{Imports: []string{"Model.Base", "Model.Reflect", "Corr.CorrC18"}, Typ: "rcase",
-		Obligations: map[string]string{"reflect_model": "c18_mismatches cases"}}
+		Obligations: map[string]string{"reflect_model": "c18_mismatches ffmt_table cases"}}
+}
+
+// the oracle table for fmt %v of float keys goes into the prelude of the cases file
+func writeCases(r *runner, cf *lib.CasesFile, name string) {
+	bits := make([]uint64, 0, len(r.ffmt))
+	for b := range r.ffmt {
+		bits = append(bits, b)
+	}
+	sort.Slice(bits, func(i, j int) bool { return bits[i] < bits[j] })
+	es := make([]string, len(bits))
+	for i, b := range bits {
+		es[i] = lib.GPair("("+strconv.FormatUint(b, 10)+")%Z", lib.GStr(r.ffmt[b]))
+	}
+	cf.Prelude = "Definition ffmt_table : list (Z * str) := " + lib.GList(es, "Z * str") + ".\n"
+	r.res.CorrFiles = append(r.res.CorrFiles, cf.WriteTo(r.cfg.Out, name))
+	r.ffmt = map[uint64]string{}
 }
 
 func nontrivial(s *Shape, v *Val) bool {
@@ -46,6 +64,7 @@ type runner struct {
 	cfg   *lib.Config
 	res   *lib.Result
 	total int
+	ffmt  map[uint64]string
 }
 
 func (r *runner) process(cs *Case, toCoq bool, cf *lib.CasesFile) {
@@ -73,6 +92,9 @@ func (r *runner) process(cs *Case, toCoq bool, cf *lib.CasesFile) {
 	bad := directCheck(cs, o, r.res)
 	if toCoq || (bad && len(r.res.Violations) <= 20) {
 		cf.Add(o.gallina(cs), map[string]interface{}{"shape": cs.S, "value": cs.V})
+		for b, t := range o.Ffmt {
+			r.ffmt[b] = t
+		}
 	}
 	if r.total%1499 == 7 {
 		r.res.Sample(map[string]interface{}{"go_type": cs.S.String(), "go_value": cs.V.Text(cs.S), "pcore_type": o.TypeText,
@@ -85,7 +107,7 @@ func main() {
 	res := lib.NewResult("C18")
 	res.Rule = rule
 	rng := lib.NewRng(cfg.Seed)
-	r := &runner{cfg: cfg, res: res}
+	r := &runner{cfg: cfg, res: res, ffmt: map[uint64]string{}}
 	if cfg.Replay != "" {
 		replay(r)
 		res.Write(cfg)
@@ -119,19 +141,19 @@ func main() {
 		r.process(c2, i%stride == off, cf)
 	}
 	res.Extra["exhaustive_cases"] = len(exh)
-	res.CorrFiles = append(res.CorrFiles, cf.WriteTo(cfg.Out, "cases_exhaustive"))
+	writeCases(r, cf, "cases_exhaustive")
 	// 2. random shapes and values
 	cf = newCasesFile()
 	for i := 0; i < nRandom; i++ {
 		r.process(randCase(rng.Fork(), "random"), i < coqRandom, cf)
 	}
-	res.CorrFiles = append(res.CorrFiles, cf.WriteTo(cfg.Out, "cases_random"))
+	writeCases(r, cf, "cases_random")
 	// 3. random structs (the struct <-> object clause)
 	cf = newCasesFile()
 	for i := 0; i < nStruct; i++ {
 		r.process(randCase(rng.Fork(), "struct"), i < coqStruct, cf)
 	}
-	res.CorrFiles = append(res.CorrFiles, cf.WriteTo(cfg.Out, "cases_struct"))
+	writeCases(r, cf, "cases_struct")
 	res.Write(cfg)
 }
 
@@ -178,5 +200,5 @@ func replay(r *runner) {
 			fmt.Println("the implementation satisfies the three clauses of C18 on this input")
 		}
 	}
-	r.res.CorrFiles = append(r.res.CorrFiles, cf.WriteTo(r.cfg.Out, "cases_replay"))
+	writeCases(r, cf, "cases_replay")
 }
